@@ -40,7 +40,7 @@ import (
 var (
 	rxPunctuation      = regexp.MustCompile(`\s+([.?!,;])\s*(\S*)`)
 	rxTempNewline      = regexp.MustCompile(`\s*\|\\/\|\s*`)
-	rxDisplay          = regexp.MustCompile(`(?i)display\s*:\s*([\w-]+)\s*(?:!\s*important\s*)?(?:;|$)`)
+	rxDisplay          = regexp.MustCompile(`(?i)display\s*:\s*([\w-]+)\s*(!\s*important\s*)?(?:;|$)`)
 	rxVisibilityHidden = regexp.MustCompile(`(?i)visibility\s*:\s*(:?hidden|collapse)`)
 	rxSrcsetURL        = regexp.MustCompile(`(?i)(\S+)((?:\s+[\d.]+(?:e[+-]?\d+)?[xwh])*)(\s*(?:,|$))`)
 
@@ -550,10 +550,20 @@ func IsProbablyVisible(node *html.Node) bool {
 func GetDisplayStyle(node *html.Node) string {
 	// Check if display specified in inline style
 	style := dom.GetAttribute(node, "style")
-	parts := rxDisplay.FindStringSubmatch(style)
-	if len(parts) >= 2 {
+	// When display is declared several times the last declaration decides,
+	// unless an earlier one is marked as important.
+	display, important := "", false
+	for _, parts := range rxDisplay.FindAllStringSubmatch(style, -1) {
+		isImportant := parts[2] != ""
+		if isImportant || !important {
+			display = parts[1]
+			important = important || isImportant
+		}
+	}
+
+	if display != "" {
 		// CSS keywords are case-insensitive
-		return strings.ToLower(parts[1])
+		return strings.ToLower(display)
 	}
 
 	// Use default display
